@@ -90,7 +90,8 @@ func strip(n *node, isRoot, inline bool) *node {
 			continue
 		case p != "" && p != "xml" && p != "xlink" && p != "xmlns":
 			continue
-		case isRoot && n.name == "svg" && rootDefaults[a.Name] != "" && sameDim(v, rootDefaults[a.Name]):
+		case n.name == "svg" && rootDefaults[a.Name] != "" && sameDim(v, rootDefaults[a.Name]):
+			// (x, y and preserveAspectRatio have these defaults on nested svg elements as well; the others mean nothing there)
 			continue
 		case isRoot && inline && a.Name == "xmlns":
 			continue
@@ -493,6 +494,75 @@ func runDocs(c *core.Check) {
 		if i%20011 == 3 {
 			_, _, out := CheckDoc(in, "standalone")
 			c.Sample(map[string]any{"svg": in, "out": out})
+		}
+	})
+}
+
+// runDefaultAttrs: every attribute the minifier may drop from an <svg> element because it states the default,
+// with the default itself and with values that only resemble it.
+func runDefaultAttrs(c *core.Check) {
+	vals := map[string][]string{
+		"preserveAspectRatio": {"xMidYMid meet", "xMidYMid slice", "xMidYMid", "xMinYMin meet", "xMaxYMid meet", "xMidYMax slice", "none", "xMidYMid meetx", "XMIDYMID MEET", "defer xMidYMid meet"},
+		"version":             {"1.1", "1.0", "1.2", "1", "11", "1.1 ", "2"},
+		"x":                   {"0", "0px", "0.0", "1", "00", "-0", "0e3", "0em", ".0", "1e0", "10"},
+		"y":                   {"0", "0px", "0.0", "1", "5", "0.5"},
+		"baseProfile":         {"none", "full", "basic", "tiny", "none2", "NONE", "non"},
+		"contentScriptType":   {"application/ecmascript", "text/ecmascript", "application/ecmascript;v=1", "application/javascript", "application/ecmascript2"},
+		"contentStyleType":    {"text/css", "text/css2", "text/cs", "text/x-scss"},
+		"width":               {"100%", "100", "100.0%", "1e2%", "10%", "100px", "100%x"},
+		"height":              {"100%", "100", "50%", "100.00%"},
+		"zoomAndPan":          {"magnify", "disable"},
+		"xml:space":           {"preserve", "default"},
+		"xmlns":               {"http://www.w3.org/2000/svg", "http://www.w3.org/2000/svg2"},
+	}
+	var names []string
+	for k := range vals {
+		names = append(names, k)
+	}
+	sort.Strings(names)
+	shapes := []string{`<svg ATTR viewBox="0 0 10 10"><rect width="4" height="4"/></svg>`, `<svg viewBox="0 0 10 10" ATTR><g/></svg>`, `<svg xmlns="http://www.w3.org/2000/svg"><svg ATTR viewBox="0 0 2 2"><path d="M0 0L1 1"/></svg></svg>`, `<svg><g ATTR><path d="M0 0L1 1"/></g></svg>`, `<svg><symbol ATTR viewBox="0 0 1 1"/><rect ATTR fill="red"/></svg>`}
+	fam := "default-attributes"
+	var docs []string
+	for _, n := range names {
+		for _, v := range vals[n] {
+			for _, sh := range shapes {
+				if n == "xmlns" && !strings.HasPrefix(sh, "<svg ATTR") {
+					continue
+				}
+				docs = append(docs, strings.ReplaceAll(sh, "ATTR", n+`="`+v+`"`))
+			}
+		}
+	}
+	// pairs of such attributes on the root
+	for _, n1 := range names {
+		for _, n2 := range names {
+			if n1 < n2 && n1 != "xmlns" && n2 != "xmlns" {
+				for _, v1 := range vals[n1][:2] {
+					for _, v2 := range vals[n2][:2] {
+						docs = append(docs, `<svg `+n1+`="`+v1+`" `+n2+`="`+v2+`"><g/></svg>`)
+					}
+				}
+			}
+		}
+	}
+	c.Family(fam).Bound = fmt.Sprintf("%d attribute names x their default and 1-11 near-default values x 5 positions (root first/last, nested svg, g, symbol+rect), and every pair of two such attributes on the root; standalone and inline", len(names))
+	c.ParallelRange(fam, uint64(len(docs)), func(i uint64) {
+		in := docs[i]
+		for _, cfg := range []string{"standalone", "inline"} {
+			kind, what, out := CheckDoc(in, cfg)
+			if kind == "skip" {
+				continue
+			}
+			c.Count(1)
+			nt := uint64(0)
+			if out != in {
+				nt = 1
+				c.Nontrivial("doc", cfg, in)
+			}
+			c.AddFamily(fam, 1, nt)
+			if kind != "" {
+				c.Fail(core.Failure{Family: fam, Input: in, Config: cfg, Kind: kind, What: what, Order: i})
+			}
 		}
 	})
 }
